@@ -104,6 +104,7 @@ type Ctx struct {
 	states     int64
 	trans      int64
 	traces     int64
+	sidecar    string // worker only: violations are appended here at once, so that they survive a crash of the process
 }
 
 func newCtx(id, tier string, seed int64) *Ctx {
@@ -242,6 +243,14 @@ func (c *Ctx) Violation(sig, what string, cas interface{}) {
 		}
 	}
 	c.viol = append(c.viol, Violation{Sig: sig, What: what, Case: cas})
+	if c.sidecar != "" {
+		if f, err := os.OpenFile(c.sidecar, os.O_APPEND|os.O_CREATE|os.O_WRONLY, 0o644); err == nil {
+			if data, err := json.Marshal(Violation{Sig: sig, What: what, Case: cas}); err == nil {
+				f.Write(append(data, '\n'))
+			}
+			f.Close()
+		}
+	}
 }
 
 func (c *Ctx) Violations() int { c.mu.Lock(); defer c.mu.Unlock(); return len(c.viol) }
@@ -407,6 +416,7 @@ func runCheck(id, tier string) int {
 		for i := 0; i < nw; i++ {
 			outs[i] = filepath.Join(work, fmt.Sprintf("shard-%d.json", i))
 			os.Remove(outs[i])
+			os.Remove(outs[i] + ".viol")
 			wg.Add(1)
 			go func(i int) {
 				defer wg.Done()
@@ -423,9 +433,31 @@ func runCheck(id, tier string) int {
 		for i := 0; i < nw; i++ {
 			data, err := ioutil.ReadFile(outs[i])
 			if err != nil || errs[i] != nil {
-				tail := stderrs[i].String()
+				full := stderrs[i].String()
+				tail := full
 				if len(tail) > 4000 {
 					tail = tail[len(tail)-4000:]
+				}
+				// a worker that crashed inside the code under test is evidence, not a harness failure:
+				// keep the violations it had already reported and add the crash itself
+				if crashInCodeUnderTest(full) {
+					if side, err := ioutil.ReadFile(outs[i] + ".viol"); err == nil {
+						for _, line := range strings.Split(string(side), "\n") {
+							var v Violation
+							if json.Unmarshal([]byte(line), &v) == nil && v.Sig != "" {
+								c.viol = append(c.viol, v)
+							}
+						}
+					}
+					head := full
+					if k := strings.Index(head, "\ngoroutine "); k > 0 && k < 600 {
+						head = head[:k]
+					} else if len(head) > 600 {
+						head = head[:600]
+					}
+					c.viol = append(c.viol, Violation{Sig: id + "|worker-crash-in-gomacro", What: "worker process crashed inside gomacro code: " + oneLine(head, 500), Case: map[string]string{"stderr_tail": tail}})
+					c.Cap("a worker crashed")
+					continue
 				}
 				fmt.Fprintf(os.Stderr, "HARNESS-ERROR: worker %d of %s failed: %v %v\n%s\n", i, id, errs[i], err, tail)
 				return 3
@@ -437,6 +469,7 @@ func runCheck(id, tier string) int {
 			}
 			c.merge(&p)
 			os.Remove(outs[i])
+			os.Remove(outs[i] + ".viol")
 		}
 	}
 	if ch.Finish != nil {
@@ -450,6 +483,21 @@ func runGuarded(ch *Check, c *Ctx) {
 	ch.Run(c)
 }
 
+// crashInCodeUnderTest: the fatal panic's first goroutine trace runs through gomacro frames before any harness frame.
+func crashInCodeUnderTest(stderr string) bool {
+	k := strings.Index(stderr, "\ngoroutine ")
+	if k < 0 || !(strings.Contains(stderr[:k], "panic:") || strings.Contains(stderr[:k], "fatal error:")) {
+		return false
+	}
+	trace := stderr[k:]
+	if e := strings.Index(trace[1:], "\ngoroutine "); e > 0 {
+		trace = trace[:e+1]
+	}
+	g := strings.Index(trace, "github.com/cosmos72/gomacro/")
+	h := strings.Index(trace, "verif/harness/")
+	return g >= 0 && (h < 0 || g < h)
+}
+
 func runWorker(a []string) int {
 	id, tier := a[0], a[1]
 	shard, _ := strconv.Atoi(a[2])
@@ -458,6 +506,7 @@ func runWorker(a []string) int {
 	ch := Lookup(id)
 	c := newCtx(id, tier, seed())
 	c.Shard, c.NShards = shard, n
+	c.sidecar = out + ".viol"
 	ch.Run(c)
 	data, err := json.Marshal(c.toPartial())
 	if err != nil {
